@@ -102,4 +102,171 @@ theorem downAx_bytes (sf st : Nat) (r : Req) (hst : st ≤ sf) (hb : r.burst = B
   unfold alignedAddr numBytes
   rw [Nat.mul_assoc, two_pow_sub_mul hst]
 
+/-- WRAP address of beat `k` for a start aligned to the transfer size. -/
+theorem wrap_addr_aligned (start len size k : Nat) (hal : numBytes size ∣ start) :
+    axiSpecAddr start len size BURST_WRAP k =
+      if start + k * numBytes size < wrapBoundary start len size + numBytes size * (len + 1)
+      then start + k * numBytes size else start + k * numBytes size - numBytes size * (len + 1) := by
+  unfold axiSpecAddr
+  rw [if_neg (by decide), if_pos rfl]
+  have ha : (if k = 0 then start else alignedAddr start size + k * numBytes size) = start + k * numBytes size := by
+    split
+    · next h => subst h; simp
+    · rw [alignedAddr_of_dvd hal]
+  simp only [ha]
+  split <;> split <;> first | rfl | omega
+
+/-- Bytes of a WRAP burst with aligned start: from the start up to the end of the window, then from the window
+    base up to the start. -/
+theorem wrap_bytes_aligned (start len size : Nat) (hal : numBytes size ∣ start) :
+    burstBytes start len size BURST_WRAP =
+      List.range' start (wrapBoundary start len size + numBytes size * (len + 1) - start) ++
+      List.range' (wrapBoundary start len size) (start - wrapBoundary start len size) := by
+  have hNB : 0 < numBytes size := Nat.two_pow_pos size
+  generalize hW : numBytes size * (len + 1) = W
+  have hWpos : 0 < W := by rw [← hW]; exact Nat.mul_pos hNB (Nat.succ_pos _)
+  have hwbdef : wrapBoundary start len size = start / W * W := by unfold wrapBoundary; rw [hW]
+  generalize hwb : wrapBoundary start len size = wb at *
+  have hNBW : numBytes size ∣ W := by rw [← hW]; exact Nat.dvd_mul_right _ _
+  have hNBwb : numBytes size ∣ wb := by rw [hwbdef]; exact Nat.dvd_trans hNBW (Nat.dvd_mul_left _ _)
+  have hle : wb ≤ start := by rw [hwbdef]; exact Nat.div_mul_le_self _ _
+  have hlt : start < wb + W := by
+    rw [hwbdef]
+    have := Nat.lt_div_mul_add (a := start) hWpos
+    omega
+  -- number of beats before the wrap
+  have hdvd : numBytes size ∣ wb + W - start := Nat.dvd_sub (Nat.dvd_add hNBwb hNBW) hal
+  obtain ⟨m, hm⟩ := hdvd
+  have hmn : m ≤ len + 1 := by
+    apply Nat.le_of_mul_le_mul_left _ hNB
+    rw [← hm, hW]; omega
+  have hsplit : List.range (len + 1) = List.range m ++ (List.range (len + 1 - m)).map (m + ·) := by
+    have : len + 1 = m + (len + 1 - m) := by omega
+    conv => lhs; rw [this, List.range_add]
+  have hrest : (len + 1 - m) * numBytes size = start - wb := by
+    rw [Nat.sub_mul, Nat.mul_comm (len + 1), hW, Nat.mul_comm m, ← hm]; omega
+  unfold burstBytes
+  rw [hsplit, List.flatMap_append, List.flatMap_map]
+  have h1 : (List.range m).flatMap (beatBytes start len size BURST_WRAP) = List.range' start (m * numBytes size) := by
+    rw [← flatMap_range' start (numBytes size) m]
+    apply flatMap_congr'
+    intro j hj
+    have hj' : j < m := List.mem_range.mp hj
+    have hlt' : start + j * numBytes size < wb + W := by
+      have : (j + 1) * numBytes size ≤ m * numBytes size := Nat.mul_le_mul_right _ hj'
+      rw [Nat.add_mul, Nat.mul_comm m, ← hm] at this
+      omega
+    have haddr : axiSpecAddr start len size BURST_WRAP j = start + j * numBytes size := by
+      rw [wrap_addr_aligned _ _ _ _ hal, hwb, hW, if_pos hlt']
+    unfold beatBytes
+    simp only [haddr, alignedAddr_of_dvd (Nat.dvd_add hal (Nat.dvd_mul_left _ _))]
+    congr 1; omega
+  have h2 : (List.range (len + 1 - m)).flatMap (fun j => beatBytes start len size BURST_WRAP (m + j))
+      = List.range' wb ((len + 1 - m) * numBytes size) := by
+    rw [← flatMap_range' wb (numBytes size) (len + 1 - m)]
+    apply flatMap_congr'
+    intro j _
+    have hge : ¬ start + (m + j) * numBytes size < wb + W := by
+      rw [Nat.add_mul, Nat.mul_comm m, ← hm]; omega
+    have haddr : axiSpecAddr start len size BURST_WRAP (m + j) = wb + j * numBytes size := by
+      rw [wrap_addr_aligned _ _ _ _ hal, hwb, hW, if_neg hge, Nat.add_mul, Nat.mul_comm m, ← hm]; omega
+    unfold beatBytes
+    simp only [haddr, alignedAddr_of_dvd (Nat.dvd_add hNBwb (Nat.dvd_mul_left _ _))]
+    congr 1; omega
+  rw [h1, h2, hrest, Nat.mul_comm m, ← hm]
+
+
+/-- Two WRAP bursts from the same (aligned) start with the same window size touch the same bytes in the same order,
+    whatever their transfer sizes. -/
+theorem wrap_bytes_same_window (start l1 s1 l2 s2 : Nat) (h1 : numBytes s1 ∣ start) (h2 : numBytes s2 ∣ start)
+    (hw : numBytes s1 * (l1 + 1) = numBytes s2 * (l2 + 1)) :
+    burstBytes start l1 s1 BURST_WRAP = burstBytes start l2 s2 BURST_WRAP := by
+  rw [wrap_bytes_aligned _ _ _ h1, wrap_bytes_aligned _ _ _ h2]
+  unfold wrapBoundary
+  rw [hw]
+
+theorem len_div_mul {len k : Nat} (hmul : (len + 1) % 2 ^ k = 0) : (len / 2 ^ k + 1) * 2 ^ k = len + 1 := by
+  have hpos : 0 < 2 ^ k := Nat.two_pow_pos k
+  obtain ⟨q, hq⟩ := Nat.dvd_of_mod_eq_zero hmul
+  have hq1 : 1 ≤ q := by
+    rcases q with _ | q
+    · simp at hq
+    · omega
+  have : len = 2 ^ k * (q - 1) + (2 ^ k - 1) := by
+    have : 2 ^ k * q = 2 ^ k * (q - 1) + 2 ^ k := by
+      rw [← Nat.mul_succ]; congr 1; omega
+    omega
+  have hdiv : len / 2 ^ k = q - 1 := by
+    rw [this, Nat.mul_add_div hpos, Nat.div_eq_of_lt (by omega)]; simp
+  rw [hdiv, hq, Nat.mul_comm]; congr 1; omega
+
+/-- Up-conversion of a WRAP burst whose start is aligned to the wide word and whose length is a multiple of the
+    ratio. -/
+theorem upAx_wrap_bytes (k : Nat) (r : Req) (hb : r.burst = BURST_WRAP) (hs : r.size + k < 8)
+    (hal : r.addr % numBytes (r.size + k) = 0) (hmul : (r.len + 1) % 2 ^ k = 0) :
+    burstBytes (upAx k r).addr (upAx k r).len (upAx k r).size (upAx k r).burst
+      = burstBytes r.addr r.len r.size r.burst := by
+  have hd2 : numBytes (r.size + k) ∣ r.addr := Nat.dvd_of_mod_eq_zero hal
+  have hd1 : numBytes r.size ∣ r.addr :=
+    Nat.dvd_trans (by unfold numBytes; exact Nat.pow_dvd_pow 2 (Nat.le_add_right _ _)) hd2
+  have hsz : (r.size + k) % 8 = r.size + k := Nat.mod_eq_of_lt hs
+  simp only [upAx, hb, hsz]
+  apply wrap_bytes_same_window _ _ _ _ _ hd2 hd1
+  unfold numBytes
+  rw [Nat.pow_add, Nat.mul_assoc, Nat.mul_comm (2 ^ k), len_div_mul hmul]
+
+/-- Down-conversion of a full-width WRAP burst (start aligned to the wide word, as WRAP legality requires) whose
+    multiplied length still fits the port. -/
+theorem downAx_wrap_bytes (sf st : Nat) (r : Req) (hst : st ≤ sf) (hb : r.burst = BURST_WRAP) (hs : r.size = sf)
+    (hal : r.addr % numBytes sf = 0) (hfit : (r.len + 1) * 2 ^ (sf - st) ≤ 256) :
+    burstBytes (downAx sf st r).addr (downAx sf st r).len (downAx sf st r).size (downAx sf st r).burst
+      = burstBytes r.addr r.len r.size r.burst ∧
+    (downAx sf st r).len + 1 = (r.len + 1) * 2 ^ (sf - st) := by
+  have hd1 : numBytes sf ∣ r.addr := Nat.dvd_of_mod_eq_zero hal
+  have hd2 : numBytes st ∣ r.addr := Nat.dvd_trans (by unfold numBytes; exact Nat.pow_dvd_pow 2 hst) hd1
+  have hpos : 0 < (r.len + 1) * 2 ^ (sf - st) := Nat.mul_pos (Nat.succ_pos _) (Nat.two_pow_pos _)
+  have hlen : ((r.len + 1) * 2 ^ (sf - st) - 1) % 256 + 1 = (r.len + 1) * 2 ^ (sf - st) := by
+    rw [Nat.mod_eq_of_lt (by omega)]; omega
+  have hsize : (if r.size ≤ st then r.size else st) = st := by
+    split
+    · omega
+    · rfl
+  have hburst : (if r.burst = BURST_FIXED then BURST_INCR else r.burst) = BURST_WRAP := by
+    rw [hb]; rfl
+  have haddr : r.addr / 2 ^ sf * 2 ^ sf = r.addr := Nat.div_mul_cancel hd1
+  refine ⟨?_, by simp only [downAx]; exact hlen⟩
+  rw [hs] at hsize
+  rw [hb] at hburst
+  simp only [downAx, hb, hs, hsize, hburst, haddr]
+  apply wrap_bytes_same_window _ _ _ _ _ hd2 hd1
+  rw [hlen]
+  unfold numBytes
+  rw [Nat.mul_comm (r.len + 1), ← Nat.mul_assoc, Nat.mul_comm (2 ^ st), two_pow_sub_mul hst]
+
+/-- Down-conversion of a single transfer at least as wide as the narrow bus: the `2^(sf-st)` full-width narrow
+    transfers of the wide word that contains it. -/
+theorem downAx_single_bytes (sf st : Nat) (r : Req) (hst : st ≤ sf) (hk : sf - st ≤ 8)
+    (hb : r.burst = BURST_INCR ∨ r.burst = BURST_FIXED) (hlen0 : r.len = 0) (hs1 : st ≤ r.size) :
+    burstBytes (downAx sf st r).addr (downAx sf st r).len (downAx sf st r).size (downAx sf st r).burst
+      = List.range' (alignedAddr r.addr sf) (numBytes sf) := by
+  have hpow : 2 ^ (sf - st) ≤ 256 := by
+    calc 2 ^ (sf - st) ≤ 2 ^ 8 := Nat.pow_le_pow_right (by decide) hk
+      _ = 256 := by decide
+  have hpos : 0 < 2 ^ (sf - st) := Nat.two_pow_pos _
+  have hlen : ((r.len + 1) * 2 ^ (sf - st) - 1) % 256 + 1 = 2 ^ (sf - st) := by
+    rw [hlen0, Nat.zero_add, Nat.one_mul, Nat.mod_eq_of_lt (by omega)]; omega
+  have hsize : (if r.size ≤ st then r.size else st) = st := by
+    split
+    · omega
+    · rfl
+  have hburst : (if r.burst = BURST_FIXED then BURST_INCR else r.burst) = BURST_INCR := by
+    rcases hb with hb | hb <;> rw [hb] <;> rfl
+  have hal : (r.addr / 2 ^ sf * 2 ^ sf) % numBytes st = 0 := by
+    apply Nat.mod_eq_zero_of_dvd
+    exact Nat.dvd_trans (Nat.pow_dvd_pow 2 hst) (Nat.dvd_mul_left _ _)
+  simp only [downAx, hsize, hburst]
+  rw [incr_bytes_aligned _ _ _ hal, hlen]
+  unfold alignedAddr numBytes
+  rw [two_pow_sub_mul hst]
+
 end Litex.Axi
